@@ -161,8 +161,8 @@ class SimpleStorageService(object):
         with gevent.Timeout(self.timeout):
             ids = list(self.bucket.list(self.prefix))
         for id in ids:
-            timestamp, attempts = self.get_message_meta(id)
-            yield (timestamp, id)
+            meta = self.get_message_meta(id)
+            yield (meta['timestamp'], id)
 
 
 class SimpleQueueService(object):
